@@ -1,0 +1,304 @@
+//go:build verif
+
+package remote
+
+import (
+	"context"
+	"crypto/tls"
+	"errors"
+	"fmt"
+	"net"
+	"sync"
+
+	"github.com/foxcpp/go-mtasts"
+	"github.com/foxcpp/maddy/framework/dns"
+	"github.com/foxcpp/maddy/framework/exterrors"
+	"github.com/foxcpp/maddy/framework/module"
+)
+
+// Trace hooks of the verification harness (/verif, properties C05/C09), compiled only with the
+// build tag "verif" and silent unless VerifTraceSink is set. Events at the linearization points
+// of a delivery: the policies in force, the MX lookup, per MX candidate what every policy
+// answered in CheckMX / CheckConn together with the facts it answered on (MTA-STS mode and match,
+// TLSA outcome relative to the presented certificate), what connect() established as the CLIENT
+// sees it (tls.ConnectionState: no TLS / TLS without verified chain / verified chain), the result
+// of every AddRcpt, the connection DATA is issued on, and every status handed to the
+// StatusCollector. `seq` is assigned under the tracer's mutex.
+
+var errVerifQuarantined = errors.New("refusing a quarantined message")
+
+// VerifTraceSink receives the events (key = target + message ID + serial of the delivery).
+var VerifTraceSink func(ev map[string]interface{})
+
+var (
+	verifMu     sync.Mutex
+	verifSeq    int
+	verifSerial int
+	verifKeys   = map[*module.MsgMetadata]string{}
+	// targets seen so far (keeps them alive, so an address is never reused for another target)
+	verifTargets = map[*Target]string{}
+)
+
+func verifClass(err error) string {
+	switch {
+	case err == nil:
+		return "ok"
+	case exterrors.IsTemporary(err):
+		return "temp"
+	}
+	return "perm"
+}
+
+func verifErrText(err error) string {
+	if err == nil {
+		return ""
+	}
+	s := err.Error()
+	if len(s) > 120 {
+		s = s[:120]
+	}
+	return s
+}
+
+func verifEmit(meta *module.MsgMetadata, e string, f map[string]interface{}) {
+	if VerifTraceSink == nil {
+		return
+	}
+	verifMu.Lock()
+	defer verifMu.Unlock()
+	verifSeq++
+	ev := map[string]interface{}{"key": verifKeys[meta], "seq": verifSeq, "e": e}
+	for k, v := range f {
+		ev[k] = v
+	}
+	VerifTraceSink(ev)
+}
+
+// what the client sees of a connection's TLS state
+func verifTLS(c *mxConn) string {
+	if c == nil || c.C == nil || c.Client() == nil {
+		return "closed"
+	}
+	st, ok := c.Client().TLSConnectionState()
+	switch {
+	case !ok || !st.HandshakeComplete:
+		return "none"
+	case st.VerifiedChains != nil:
+		return "enc-auth"
+	}
+	return "enc-unauth"
+}
+
+func verifConnID(c *mxConn) string {
+	if c == nil || c.C == nil {
+		return ""
+	}
+	return fmt.Sprintf("%p", c.C)
+}
+
+// ---- Start: the policies in force, wrapped so that their answers are logged ----
+
+func verifPolicies(rt *Target, meta *module.MsgMetadata, ps []module.DeliveryMXAuthPolicy) []module.DeliveryMXAuthPolicy {
+	if VerifTraceSink == nil {
+		return ps
+	}
+	verifMu.Lock()
+	verifSerial++
+	if _, ok := verifTargets[rt]; !ok {
+		verifTargets[rt] = fmt.Sprintf("T%d", len(verifTargets)+1)
+	}
+	tgtID := verifTargets[rt]
+	verifKeys[meta] = fmt.Sprintf("%s/%s/%d", tgtID, meta.ID, verifSerial)
+	verifMu.Unlock()
+	names := []string{}
+	minTLS, minMX := 0, 0
+	out := make([]module.DeliveryMXAuthPolicy, 0, len(ps))
+	for _, p := range ps {
+		name := "other"
+		switch v := p.(type) {
+		case *mtastsDelivery:
+			name = "mtasts"
+		case *daneDelivery:
+			name = "dane"
+			if v.c.extResolver == nil {
+				name = "dane-off" // no DNSSEC-aware resolver: the policy is a no-op
+			}
+		case dnssecPolicy:
+			name = "dnssec"
+		case localPolicy:
+			name = "local"
+			minTLS, minMX = int(v.minTLSLevel), int(v.minMXLevel)
+		case *preloadDelivery:
+			name = "sts_preload"
+		}
+		names = append(names, name)
+		out = append(out, &verifPolicy{meta: meta, name: name, inner: p})
+	}
+	configured := []string{}
+	for _, p := range rt.policies {
+		configured = append(configured, fmt.Sprintf("%T", p))
+	}
+	verifEmit(meta, "HStart", map[string]interface{}{
+		"tgt": tgtID, "msgid": meta.ID, "pols": names, "configured": configured,
+		"minTLS": minTLS, "minMX": minMX, "override": rt.allowSecOverride, "tlsno": meta.TLSRequireOverride,
+		"reqtls": meta.SMTPOpts.RequireTLS, "quar": meta.Quarantine, "relaxed": rt.relaxedREQUIRETLS,
+		"extResolver": rt.extResolver != nil, "tlsConfig": rt.tlsConfig != nil})
+	return out
+}
+
+type verifPolicy struct {
+	meta  *module.MsgMetadata
+	name  string
+	inner module.DeliveryMXAuthPolicy
+}
+
+func (p *verifPolicy) PrepareDomain(ctx context.Context, domain string) {
+	p.inner.PrepareDomain(ctx, domain)
+}
+func (p *verifPolicy) PrepareConn(ctx context.Context, mx string) { p.inner.PrepareConn(ctx, mx) }
+func (p *verifPolicy) Reset(m *module.MsgMetadata)                { p.inner.Reset(m) }
+
+func (p *verifPolicy) CheckMX(ctx context.Context, mxLevel module.MXLevel, domain, mx string, dnssec bool) (module.MXLevel, error) {
+	lvl, err := p.inner.CheckMX(ctx, mxLevel, domain, mx, dnssec)
+	f := map[string]interface{}{"pol": p.name, "dom": domain, "host": mx, "in": int(mxLevel), "out": int(lvl),
+		"dnssec": dnssec, "res": verifClass(err), "err": verifErrText(err)}
+	if d, ok := p.inner.(*mtastsDelivery); ok && d.policyFut != nil {
+		// the facts the answer was based on: the policy that was fetched and whether this MX matches it
+		mode, match := "none", false
+		if v, ferr := d.policyFut.GetContext(ctx); ferr == nil {
+			pol := v.(*mtasts.Policy)
+			mode, match = string(pol.Mode), pol.Match(mx)
+		}
+		f["mode"], f["match"] = mode, match
+	}
+	verifEmit(p.meta, "HPolMX", f)
+	return lvl, err
+}
+
+func (p *verifPolicy) CheckConn(ctx context.Context, mxLevel module.MXLevel, tlsLevel module.TLSLevel, domain, mx string, st tls.ConnectionState) (module.TLSLevel, error) {
+	lvl, err := p.inner.CheckConn(ctx, mxLevel, tlsLevel, domain, mx, st)
+	f := map[string]interface{}{"pol": p.name, "dom": domain, "host": mx, "mxl": int(mxLevel), "in": int(tlsLevel),
+		"out": int(lvl), "res": verifClass(err), "err": verifErrText(err)}
+	if d, ok := p.inner.(*daneDelivery); ok && d.tlsaFut != nil {
+		f["tlsa"] = verifTLSAClass(ctx, d, st)
+	}
+	verifEmit(p.meta, "HPolConn", f)
+	return lvl, err
+}
+
+// TLSA outcome for the MX relative to the certificate it presented, computed from the looked-up
+// records with the library's matcher (not with verifyDANE): "servfail" (lookup error), "none"
+// (no records), "unusable" (no DANE-EE/DANE-TA record with a known selector/matching type),
+// "ee_match", "mismatch" (usable DANE-EE records, none matches / no certificate), "ta" (DANE-TA
+// records are present and no DANE-EE record matches: chain facts are not logged).
+func verifTLSAClass(ctx context.Context, d *daneDelivery, st tls.ConnectionState) string {
+	v, err := d.tlsaFut.GetContext(ctx)
+	if err != nil {
+		if dns.IsNotFound(err) {
+			return "none"
+		}
+		return "servfail"
+	}
+	recs := v.([]dns.TLSA)
+	if len(recs) == 0 {
+		return "none"
+	}
+	usable, ta := false, false
+	for _, r := range recs {
+		if r.MatchingType > 2 || r.Selector > 1 {
+			continue
+		}
+		switch r.Usage {
+		case 3:
+			usable = true
+			if len(st.PeerCertificates) != 0 && r.Verify(st.PeerCertificates[0]) == nil {
+				return "ee_match"
+			}
+		case 2:
+			usable, ta = true, true
+		}
+	}
+	switch {
+	case ta:
+		return "ta"
+	case usable:
+		return "mismatch"
+	}
+	return "unusable"
+}
+
+// ---- connect.go ----
+
+func verifLookup(rd *remoteDelivery, domain string, ad bool, records []*net.MX, err error) {
+	hosts := []string{}
+	for _, r := range records {
+		hosts = append(hosts, r.Host)
+	}
+	verifEmit(rd.msgMeta, "HLookup", map[string]interface{}{"dom": domain, "ad": ad, "mx": hosts,
+		"res": verifClass(err), "err": verifErrText(err)})
+}
+
+func verifPool(rd *remoteDelivery, domain string, pooled interface{}) {
+	id, tlsState := "", ""
+	if c, ok := pooled.(*mxConn); ok && c != nil {
+		id, tlsState = verifConnID(c), verifTLS(c)
+	}
+	verifEmit(rd.msgMeta, "HPool", map[string]interface{}{"dom": domain, "hit": id != "", "conn": id, "tls": tlsState,
+		"reqtls": rd.msgMeta.SMTPOpts.RequireTLS})
+}
+
+func verifMX(rd *remoteDelivery, conn *mxConn, record *net.MX) {
+	verifEmit(rd.msgMeta, "HMX", map[string]interface{}{"dom": conn.domain, "host": record.Host, "dnssec": conn.dnssecOk})
+}
+
+// deferred at the top of connect(): what was established, as the client sees it
+func verifConnect(rd *remoteDelivery, conn *mxConn, host string, tlsLevel *module.TLSLevel, tlsErr, err *error) {
+	offered := false
+	if *err == nil && conn.Client() != nil {
+		offered, _ = conn.Client().Extension("STARTTLS")
+	}
+	verifEmit(rd.msgMeta, "HConn", map[string]interface{}{"dom": conn.domain, "host": host, "conn": verifConnID(conn),
+		"tls": verifTLS(conn), "lvl": int(*tlsLevel), "tlsErr": *tlsErr != nil, "starttls": offered,
+		"res": verifClass(*err), "err": verifErrText(*err)})
+}
+
+func verifMail(rd *remoteDelivery, conn *mxConn, err error) {
+	verifEmit(rd.msgMeta, "HMail", map[string]interface{}{"dom": conn.domain, "conn": verifConnID(conn),
+		"res": verifClass(err), "err": verifErrText(err)})
+}
+
+// ---- remote.go ----
+
+// stage: "" accepted, "quarantine", "conn" (connectionForDomain failed), "rcpt" (RCPT TO refused)
+func verifRcpt(rd *remoteDelivery, to, stage string, err error) {
+	verifEmit(rd.msgMeta, "HRcpt", map[string]interface{}{"to": to, "stage": stage, "res": verifClass(err), "err": verifErrText(err),
+		"quar": rd.msgMeta.Quarantine})
+}
+
+type verifStatus struct {
+	rd    *remoteDelivery
+	inner module.StatusCollector
+}
+
+func (s verifStatus) SetStatus(rcptTo string, err error) {
+	verifEmit(s.rd.msgMeta, "HStatus", map[string]interface{}{"to": rcptTo, "res": verifClass(err), "err": verifErrText(err)})
+	s.inner.SetStatus(rcptTo, err)
+}
+
+func verifBody(rd *remoteDelivery, c module.StatusCollector) module.StatusCollector {
+	if VerifTraceSink == nil {
+		return c
+	}
+	verifEmit(rd.msgMeta, "HBody", map[string]interface{}{"quar": rd.msgMeta.Quarantine,
+		"rcpts": append([]string{}, rd.recipients...)})
+	return verifStatus{rd: rd, inner: c}
+}
+
+func verifBodyDone(rd *remoteDelivery) { verifEmit(rd.msgMeta, "HBodyDone", nil) }
+
+func verifData(rd *remoteDelivery, conn *mxConn) {
+	verifEmit(rd.msgMeta, "HData", map[string]interface{}{"dom": conn.domain, "host": conn.ServerName(),
+		"conn": verifConnID(conn), "tls": verifTLS(conn), "mxl": int(conn.mxLevel), "tll": int(conn.tlsLevel)})
+}
+
+func verifClose(rd *remoteDelivery) { verifEmit(rd.msgMeta, "HClose", nil) }
